@@ -107,6 +107,10 @@ pub struct ThreadSpec {
     /// inside operations), not only between operations
     #[serde(default)]
     pub fine: bool,
+    /// in the basic-block build (tools/bb_tier.sh): the first execution of each block within an
+    /// operation is a scheduling point with probability 1/bb (0 = off; no effect in the ordinary build)
+    #[serde(default)]
+    pub bb: u32,
 }
 
 #[derive(Clone)]
@@ -397,6 +401,20 @@ struct Baton {
     /// set by the watchdog when a thread that holds the baton blocks on another, parked thread (a
     /// lock held across an FFI call): every thread then runs freely to the end of the episode
     free: bool,
+    /// block-level episodes only: threads the scheduler presumes blocked on a lock that a parked thread
+    /// holds (no hand-back within the grace period): the baton went on to another thread meanwhile
+    blocked: Vec<bool>,
+}
+
+impl Baton {
+    /// the calling thread hands the baton back (or finds that it was taken away while it was blocked)
+    fn hand_back(&mut self, t: usize) {
+        if self.blocked.get(t).copied().unwrap_or(false) {
+            self.blocked[t] = false;
+        } else if !self.free {
+            self.turn = None;
+        }
+    }
 }
 
 struct BatonYielder(Arc<(Mutex<Baton>, Condvar)>);
@@ -408,7 +426,7 @@ impl crate::ffiyield::Yielder for BatonYielder {
         if g.free {
             return;
         }
-        g.turn = None;
+        g.hand_back(t);
         cv.notify_all();
         while g.turn != Some(t) && !g.free {
             g = cv.wait(g).unwrap_or_else(|e| e.into_inner());
@@ -487,8 +505,10 @@ pub fn run_threads(w: &mut World, spec: &ThreadSpec) {
     }
 
     // ---- the interleaved episode
-    let baton = Arc::new((Mutex::new(Baton { turn: None, done: spec.scripts.iter().map(|s| s.is_empty()).collect(), free: false }), Condvar::new()));
+    let baton = Arc::new((Mutex::new(Baton { turn: None, done: spec.scripts.iter().map(|s| s.is_empty()).collect(), free: false, blocked: vec![false; n] }), Condvar::new()));
     let fine = spec.fine;
+    let block_level = fine && spec.bb > 0 && crate::ffiyield::bb_blocks() > 0;
+    let mut handovers = 0u64;
     let yields_total = Arc::new(std::sync::atomic::AtomicU64::new(0));
     let mail = Arc::new(Mutex::new(vec![Vec::<KeyH>::new(); n]));
     let results: Arc<Mutex<Vec<Vec<String>>>> = Arc::new(Mutex::new(vec![Vec::new(); n]));
@@ -497,12 +517,14 @@ pub fn run_threads(w: &mut World, spec: &ThreadSpec) {
         let (baton, mail, results, shared, script) = (baton.clone(), mail.clone(), results.clone(), shared.clone(), script.clone());
         let mut keys = Some(shared_keys.clone()); // Arc clones: the *same* key objects
         let seed = spec.seed;
+        let bb = spec.bb;
         let yields_total = yields_total.clone();
         handles.push(std::thread::spawn(move || {
             let mut st = ThreadState::default();
             if fine {
                 crate::ffiyield::set_hook(Some((Arc::new(BatonYielder(baton.clone())), t)));
                 crate::ffiyield::take_yields();
+                crate::ffiyield::bb_enable(bb);
             }
             for (i, op) in script.iter().enumerate() {
                 {
@@ -512,6 +534,7 @@ pub fn run_threads(w: &mut World, spec: &ThreadSpec) {
                         g = cv.wait(g).unwrap_or_else(|e| e.into_inner());
                     }
                 }
+                crate::ffiyield::bb_op_begin(mix(seed, "bb-op", (t as u64) << 32 | i as u64));
                 let r = run_op(bk, keys.as_mut().unwrap(), &shared, &mut st, &mail, t, i, op, seed, true);
                 results.lock().unwrap()[t].push(r);
                 if i + 1 == script.len() {
@@ -521,14 +544,13 @@ pub fn run_threads(w: &mut World, spec: &ThreadSpec) {
                 }
                 let (m, cv) = &*baton;
                 let mut g = m.lock().unwrap_or_else(|e| e.into_inner());
-                if !g.free {
-                    g.turn = None;
-                }
+                g.hand_back(t);
                 if i + 1 == script.len() {
                     g.done[t] = true;
                 }
                 cv.notify_all();
             }
+            crate::ffiyield::bb_enable(0);
             crate::ffiyield::set_hook(None);
             yields_total.fetch_add(crate::ffiyield::take_yields(), std::sync::atomic::Ordering::Relaxed);
         }));
@@ -546,10 +568,33 @@ pub fn run_threads(w: &mut World, spec: &ThreadSpec) {
     let mut rr = 0usize;
     let mut degraded = false;
     loop {
-        let runnable: Vec<usize> = {
+        let (runnable, waiting_for_blocked): (Vec<usize>, bool) = {
             let g = baton.0.lock().unwrap_or_else(|e| e.into_inner());
-            (0..n).filter(|t| !g.done[*t]).collect()
+            let r: Vec<usize> = (0..n).filter(|t| !g.done[*t] && !g.blocked[*t]).collect();
+            let w = r.is_empty() && (0..n).any(|t| !g.done[t]);
+            (r, w)
         };
+        if waiting_for_blocked {
+            // every unfinished thread is presumed blocked: wait for one of them to come back
+            let (m, cv) = &*baton;
+            let g = m.lock().unwrap_or_else(|e| e.into_inner());
+            let t0 = std::time::Instant::now();
+            let mut g = g;
+            while (0..n).all(|t| g.done[t] || g.blocked[t]) && !(0..n).all(|t| g.done[t]) {
+                let (g2, _) = cv.wait_timeout(g, std::time::Duration::from_millis(50)).unwrap_or_else(|e| e.into_inner());
+                g = g2;
+                if t0.elapsed() > std::time::Duration::from_secs(60) {
+                    g.free = true;
+                    degraded = true;
+                    cv.notify_all();
+                    break;
+                }
+            }
+            if degraded {
+                break;
+            }
+            continue;
+        }
         if runnable.is_empty() {
             break;
         }
@@ -575,8 +620,18 @@ pub fn run_threads(w: &mut World, spec: &ThreadSpec) {
             cv.notify_all();
             let t0 = std::time::Instant::now();
             while g.turn.is_some() {
-                let (g2, to) = cv.wait_timeout(g, std::time::Duration::from_secs(5)).unwrap_or_else(|e| e.into_inner());
+                let grace = if block_level { std::time::Duration::from_millis(400) } else { std::time::Duration::from_secs(5) };
+                let (g2, to) = cv.wait_timeout(g, grace).unwrap_or_else(|e| e.into_inner());
                 g = g2;
+                if to.timed_out() && g.turn == Some(pick) && block_level {
+                    // no hand-back within the grace period although scheduling points are a few blocks apart:
+                    // the thread is blocked on a lock that a parked thread holds. The baton goes on; the
+                    // blocked thread re-joins at its next scheduling point.
+                    g.blocked[pick] = true;
+                    g.turn = None;
+                    handovers += 1;
+                    break;
+                }
                 if to.timed_out() && g.turn.is_some() && fine && t0.elapsed() > std::time::Duration::from_secs(60) {
                     // the running thread is blocked on a parked one: let everybody run
                     g.free = true;
@@ -617,6 +672,12 @@ pub fn run_threads(w: &mut World, spec: &ThreadSpec) {
     }
     if degraded {
         w.stats.bump("sched:episode-degraded-to-free-running");
+    }
+    if handovers > 0 {
+        w.stats.add("sched:baton-taken-from-a-blocked-thread", handovers);
+    }
+    if crate::ffiyield::bb_blocks() > 0 {
+        w.stats.distinct.insert(format!("instrumented-blocks|{}", crate::ffiyield::bb_blocks()));
     }
     w.log.update_str(&format!("threads {} n={} ops={} schedule={:016x}", bk.name(), n, total_ops, trace.0));
     for t in 0..n {
